@@ -268,6 +268,10 @@ def _producer_faults(case, thorough):
             out.append({"kind": "bad_input", "rec": r, "what": "excess"})
             if case["symm"]:
                 out.append({"kind": "bad_input", "rec": r, "what": "tril"})
+        elif case["symm"]:
+            # coarsen: a lower-triangle record in a symmetric-upper SOURCE (it stays lower after pooling unless both
+            # ends fall into one coarse bin; the model judges the chunks the coarsener really yields)
+            out.append({"kind": "bad_input", "rec": r, "what": "tril"})
     if case["producer"] == "merge":
         out.append({"kind": "incompatible"})
     return out
@@ -304,7 +308,8 @@ def _faulty_inputs(case, fault):
                 return None  # no partner in the block: this fault does not exist for this record
             part[2] = 2 ** 31 - 1
     elif kind == "bad_input":
-        r = inputs[1][fault["rec"] % len(inputs[1])] if inputs[1] else None
+        which = 1 if case["producer"] == "merge" else 0
+        r = inputs[which][fault["rec"] % len(inputs[which])] if inputs[which] else None
         if r is None:
             return None
         if fault["what"] == "excess":
@@ -316,9 +321,9 @@ def _faulty_inputs(case, fault):
                 r[0], r[1] = (1, 0)
             else:
                 r[0], r[1] = r[1], r[0]
-        inputs[1].sort()
+        inputs[which].sort()
         # keys must stay unique inside the input cooler
-        keys = [(q[0], q[1]) for q in inputs[1]]
+        keys = [(q[0], q[1]) for q in inputs[which]]
         if len(set(keys)) != len(keys):
             return None
     return inputs
